@@ -12,8 +12,34 @@ IDs are, and after close + closing period both transports' routing and reset-tok
 def fieldOf (ws : List String) (key : String) : Option String :=
   ws.findSome? fun w => if w.startsWith key then some (w.drop key.length).toString else none
 
+/-- `mig`: a client that probes more paths over further transports (Conn.AddPath / Probe / Switch), see the driver -/
+def stepMig (op impl : String) : Unit × StepOut :=
+  let w := words op
+  let iw := words impl
+  let get (k : String) : String := (fieldOf iw k).getD "?"
+  -- whether a probe / a migration succeeds is not part of the property (it depends on spare connection IDs and timing):
+  -- echoed, and shown in the coverage tags
+  let expected := s!"hs=ok probe={get "probe="} sw={get "sw="} mid=ok end_srv=0/0 end_cli=0/0 end_p1=0/0 end_p2=0/0 end_p3=0/0"
+  let hsOK := get "hs=" == "ok"
+  let ends := ["end_srv=", "end_cli=", "end_p1=", "end_p2=", "end_p3="]
+  let dirty := ends.filter fun k => get k != "0/0"
+  let f1 : List (String × String × String) :=
+    if hsOK && !dirty.isEmpty then
+      [("routing_clean_after_close_e2e", "-",
+        s!"after close and the closing period (routes/tokens): server {get "end_srv="}, client transport {get "end_cli="}, second transport {get "end_p1="}, third transport {get "end_p2="}, fourth transport {get "end_p3="}")]
+    else []
+  let f2 : List (String × String × String) :=
+    if hsOK && get "probe=" == "ok" && get "mid=" != "ok" then
+      [("probed_path_routing_e2e", "-", s!"after path validation: {get "mid="} (a probed transport must route the connection's IDs in use, and only IDs the first transport routes too)")]
+    else []
+  let tags := (w.drop 1).filter fun x => x.startsWith "paths=" || x.startsWith "plan=" || x.startsWith "switch=" || x.startsWith "back=" || x.startsWith "closer="
+  let outcome := [if get "probe=" == "ok" then "mig:probe-ok" else "mig:probe-failed",
+                  if get "sw=" == "ok" then "mig:switch-ok" else if get "sw=" == "-" then "mig:no-switch" else "mig:switch-failed"]
+  ((), { model := expected, tags := ["mig"] ++ tags.map (fun t => "mig:" ++ t) ++ outcome, fails := f1 ++ f2 })
+
 def step (_ : Unit) (op impl : String) : Unit × StepOut :=
   let w := words op
+  if w.headD "" == "mig" then stepMig op impl else
   if w.headD "" != "scn" then ((), { model := "skip", tags := ["skip"] }) else
   let iw := words impl
   let expected := "hs=ok mid_stale=0 mid_routes=some end_srv_routes=0 end_srv_tokens=0 end_cli_routes=0 end_cli_tokens=0"
